@@ -90,6 +90,15 @@ func isEmptySlice(t *Term) bool {
 	case "slice":
 		// T{} : slice of a zero-length array literal
 		if len(t.Args) > 0 && t.Args[0].Op == "struct" && strings.HasPrefix(t.Args[0].Val, "[0]") {
+			// make([]T, n, 0) is lowered to new([0]T)[:n]: empty only for n = 0 (it panics otherwise)
+			if len(t.Args) >= 3 {
+				high := t.Args[2]
+				if !(high.Op == "sym" && high.Val == "_") {
+					if c, ok := canonStr(high); !ok || c != "0" {
+						return false
+					}
+				}
+			}
 			return true
 		}
 	}
